@@ -127,7 +127,8 @@ private:
         std::vector<std::array<Real, Cfg::NbData>> out;
         for (const auto& p : g_ctx->inputs[t]) {
             std::array<Real, Cfg::NbData> q;
-            for (long k = 0; k < Cfg::NbData; ++k) q[size_t(k)] = Real(k < 4 ? p[size_t(k)] : 0);
+            const long idx = long(out.size());
+            for (long k = 0; k < Cfg::NbData; ++k) q[size_t(k)] = Real(k < 4 ? p[size_t(k)] : g_ctx->extraData(idx, size_t(k)));
             out.push_back(q);
         }
         return out;
